@@ -269,6 +269,9 @@ func (c *EvalCtx) ident(name string) Value {
 		}
 	}
 	switch name {
+	case "bytesT":
+		// the type []byte, for type assertions in contracts: x.(bytesT)
+		return TypeV{T: types.NewSlice(types.Typ[types.Byte])}
 	case "rangecount":
 		// number of entries produced so far by the innermost range-over-map loop
 		if v, ok := c.st.ghost["rangecount"]; ok {
@@ -810,7 +813,7 @@ func (c *EvalCtx) call(e *ECall) Value {
 			if s.Obj == nil {
 				return TTrue
 			}
-			return Or(s.Nil, Bool(s.Obj.Fresh))
+			return Or(s.Nil, Bool(s.Obj.Fresh && s.Obj.MayAlias == nil))
 		case PtrV:
 			if s.Obj == nil {
 				return TTrue
@@ -1034,6 +1037,9 @@ func (c *EvalCtx) call(e *ECall) Value {
 			mask = uint8(k)
 		}
 		return Bool(c.e.taintBits(c.st, c.eval(arg(0)), 0)&mask != 0)
+	case "maytaint":
+		// as a goal nothing is to be shown: declaring a possible label is the safe direction
+		return TTrue
 	case "taintkeys":
 		// as a goal: per-key contents of maps are not tracked; the summary is assumed
 		// (and tested by a bounded probe where one is registered)
@@ -1416,7 +1422,7 @@ func (c *EvalCtx) assume(x Expr) {
 				return
 			}
 		}
-		if e.Fun == "tainted" && len(e.Args) >= 1 {
+		if (e.Fun == "tainted" || e.Fun == "maytaint") && len(e.Args) >= 1 {
 			bits := uint8(1)
 			if len(e.Args) == 2 {
 				k, _ := c.term(e.Args[1]).Int64()
@@ -1731,5 +1737,5 @@ func concreteString(s StrV) (string, bool) {
 
 func mentionsTaint(x Expr) bool {
 	s := exprStr(x)
-	return strings.Contains(s, "tainted(") || strings.Contains(s, "taintkeys(") || strings.Contains(s, "nolit(")
+	return strings.Contains(s, "tainted(") || strings.Contains(s, "taintkeys(") || strings.Contains(s, "nolit(") || strings.Contains(s, "maytaint(")
 }
